@@ -101,6 +101,20 @@ class C37(VectorEngine):
                          "these deviations are violations of the property, not modelling artefacts")
         super().run(ctx)
 
+    def replay(self, ctx, rep):
+        c = dict(rep["rendered"]); c["id"] = "replay"
+        obs = self.project(rep["input"], ctx.execute([c])["replay"])
+        from vlib.core import jdump
+        print("replay observed:", jdump(obs)); print("replay expected:", jdump(rep["expected"]))
+        if obs == rep["expected"]:
+            return True
+        od = set(ctx.open_devs())
+        for e in rep.get("devs") or []:          # the predictions Modules!DevMap made for this graph
+            if set(e["d"]) <= od and e["o"] == obs:
+                print("replay: explained by the open finding(s)", ", ".join(e["d"]))
+                return True
+        return False
+
     def strip(self, vec):
         return {"r": vec["r"], "m": vec["m"], "acc": vec["acc"]}
 
